@@ -100,9 +100,9 @@ def build_api(shape, kindf, text, coll, negate, start, end):
     elif shape == "prop-text":
         inner.filter_property("SUMMARY").filter_text_match(text, collation=c, negate_condition=negate)
     elif shape == "comp-range":
-        inner.filter_time_range(start, end)
+        inner.filter_time_range(mlib.T(start), mlib.T(end))
     elif shape == "prop-range":
-        inner.filter_property("DTSTART").filter_time_range(start, end)
+        inner.filter_property("DTSTART").filter_time_range(mlib.T(start), mlib.T(end))
     elif shape == "param-present":
         inner.filter_property("SUMMARY").filter_parameter("LANGUAGE")
     elif shape == "param-undef":
@@ -111,7 +111,7 @@ def build_api(shape, kindf, text, coll, negate, start, end):
         inner.filter_property("SUMMARY").filter_parameter("LANGUAGE").filter_text_match(
             text, collation=c, negate_condition=negate)
     elif shape == "range+text":
-        inner.filter_time_range(start, end)
+        inner.filter_time_range(mlib.T(start), mlib.T(end))
         inner.filter_property("SUMMARY").filter_text_match(text, collation=c, negate_condition=negate)
     return f
 
@@ -130,7 +130,7 @@ xcal.vDDDTypes = _TR
 
 def build_xml(shape, kindf, text, coll, negate, start, end):
     """The same filter as a CALDAV:filter element, compiled by the REAL parse_filter."""
-    _TR.table = {"t0": start, "t1": end}
+    _TR.table = {"t0": mlib.T(start), "t1": mlib.T(end)}
 
     def E(parent, tag, **attrs):
         el = ET.SubElement(parent, "{%s}%s" % (NS, tag))
